@@ -180,7 +180,11 @@ def stream_b(rng, tier, impl, modelled):
 
 
 def stream_b_rand(rng, tier, impl, modelled):
-    names = sorted(n for n in modelled if n not in stepgen.UNSAFE)
+    # CODE.RAND is left out of PROGRAMS: it draws from the implementation's full instruction cache, so code it generates and a
+    # following CODE.DO / CODE.IF executes may contain EXEC.CMD (spawns a process named by a NAME: outside the "harmless target"
+    # clause) or an operand-sized allocation (C15's envelope) — nondeterministically.  CODE.RAND itself is swept in stream
+    # a-rand and the programs it generates are executed, filtered, in stream c.
+    names = sorted(n for n in modelled if n not in stepgen.UNSAFE and n != "CODE.RAND")
     n = {"quick": 3000, "thorough": 20000, "search": 8000}[tier]
     cases = program_cases(rng, names, n, fixed=False, limits=[0, 1, 2, 5, 17, 40, 60], ks=[1, 2, 3, 10, 30, 60], tapes=True)
     n0 = len(cases)
